@@ -66,7 +66,21 @@ def _rand_opics(rng, noids):
     return [[o] + list(rng.choice(COEFFS[:8] if rng.random() < 0.9 else COEFFS)) for o in oids]
 
 
-def _palette(rng, noids):
+def _near_palette(rng, noids):
+    """edges with the same operators whose coefficients are different but close in the sense of numpy.isclose (relative 1e-5):
+    200000 and 200001, or 3 + 200000 i and 3 + 200001 i. Used in at most one layer per graph: all products stay below 2^53"""
+    base = _rand_opics(rng, noids)
+    big = rng.choice([200000, -200000, 300000])
+    a = [[o, big if k == 0 else x, y] for k, (o, x, y) in enumerate(base)]
+    b = [[o, big + (1 if big > 0 else -1) if k == 0 else x, y] for k, (o, x, y) in enumerate(base)]
+    if rng.random() < 0.3:
+        a = [[o, y, x] for o, x, y in a]; b = [[o, y, x] for o, x, y in b]       # the close parts imaginary
+    return [a, b] + ([_rand_opics(rng, noids)] if rng.random() < 0.5 else [])
+
+
+def _palette(rng, noids, near=False):
+    if near:
+        return _near_palette(rng, noids)
     n = rng.randint(1, 3)
     pal = [_rand_opics(rng, noids) for _ in range(n)]
     if rng.random() < 0.4:
@@ -114,8 +128,9 @@ def gen_layered(rng, L, canonical=False):
     layers_q = [[rng.choice(qs) for _ in range(w)] for w in widths]
     layers_q[0] = [0]
     ae = []
+    near_layer = rng.randrange(L) if rng.random() < 0.2 else None
     for t in range(L):
-        pal = _palette(rng, noids)
+        pal = _palette(rng, noids, near=(t == near_layer))
         pick = lambda: copy.deepcopy(rng.choice(pal)) if rng.random() < 0.85 else _rand_opics(rng, noids)
         has_in = set()
         for i in range(widths[t]):
@@ -137,7 +152,8 @@ def gen_layered(rng, L, canonical=False):
 def gen_trie(rng, L, canonical=False):
     """operator tree from the start node, one node per prefix, all leaves joined at the end node"""
     noids = rng.randint(1, 3)
-    pals = [_palette(rng, noids) for _ in range(L)]
+    near_layer = rng.randrange(L) if rng.random() < 0.2 else None
+    pals = [_palette(rng, noids, near=(t == near_layer)) for t in range(L)]
     useq = rng.random() < 0.5
     layers_q = [[0]] + [[] for _ in range(L - 1)] + [[0]]
     ae = []
